@@ -124,6 +124,15 @@ ReservedIgnored == \A i \in 1..Len(routed) : ~Script[routed[i]].skip /\ Script[r
 \* Nothing is lost: once the kernel has published everything and the poller
 \* has polled again with the ring empty, everything was processed.
 AllProcessed == (nextPost > Len(Script) /\ khead = ktail /\ pc = "head") => Len(processed) = Len(Script)
+\* The ghost counters of CqInd.tla (the Apalache module with W = 2^32) through the histories of
+\* this module: completions ever published, and the position behind the poller's local head.
+GhostPost == Start + nextPost - 1
+GhostLocal == Start + Len(processed)
+GhostAgrees == /\ ktail = GhostPost % W
+               /\ (pc \in {"tail", "enter", "read", "store"} => lhead = GhostLocal % W)
+               /\ (pc = "head" => khead = GhostLocal % W)
+GhostNoOverrun == GhostPost - GhostLocal >= 0 /\ GhostPost - GhostLocal <= N
+
 \* A poll that saw completions processes all of them.
 PollMakesProgress == (pc = "head" /\ polls > 0) => Len(processed) >= startProc + startDist
 
